@@ -22,6 +22,11 @@ add("C02", "exploration",
     "trusted: keccak256 (x/crypto), the harness's own RLP/hex-prefix reference (model/mpt.go), simdisk.KV; the trie, hasher, node database and iterator are the real code",
     "deterministic simulation: seeded histories + disk read faults vs reference MPT model")
 
+add("C04", "exploration",
+    "seeded search over histories of every AccountDB mutator, nested Snapshot/RevertToSnapshot, cache-warming reads, Prepare, Commit + warm/cold reopen on the simulated disk; oracles: the statement's query vector recorded at each snapshot must be answered identically right after the revert, and a twin run without the reverted segments must give the same intermediate and committed root (difference classified leaf by leaf). Sampling, not proof.",
+    "trusted: simdisk.KV, the closed observation universe; AccountDB/journal/tries are the real code; base states start with the native-token contract binding every genesis creates",
+    "deterministic simulation: seeded histories with nested reverts + reopen faults; observation and twin-run oracles")
+
 hooks_commits = subprocess.run(["git", "-C", "/repo", "log", "--format=%h %s", "--grep=^verif hook"], capture_output=True, text=True).stdout.strip().splitlines()
 
 m = {
